@@ -44,6 +44,11 @@ struct Rec {
 struct Guard(usize, Arc<Mutex<Rec>>);
 impl Drop for Guard {
     fn drop(&mut self) {
+        // what a callback owns may take time to release: a visible step before the drop is
+        // recorded, so that "shutdown() returned" can be ordered before it if the router lets it
+        unsafe {
+            libc::sched_yield();
+        }
         let s = CLOCK.fetch_add(1, Ordering::SeqCst);
         self.1.lock().unwrap().drops.push((self.0, s));
     }
